@@ -98,3 +98,8 @@ Example C13_nonvacuous :
         EResp 2147483652 77]           (* unknown *)
      = [1; 2147483652; 2; 2; -1; 2147483647; 0; 1; 1].
 Proof. split; [unfold wf_gen; cbn; repeat split; discriminate | vm_compute; reflexivity]. Qed.
+
+Example C13_resume_nonvacuous :
+  take_numbers 3 (resume (seq_init 1 2147483647) [2; 3; 4]) = [5; 6; 7]
+  /\ take_numbers 2 (resume (seq_init 1 2147483647) []) = [1; 2].
+Proof. split; vm_compute; reflexivity. Qed.
